@@ -159,3 +159,15 @@ def iter_pos(it):
 
 def exc_listed(classes, exc):
     return bool(classes) and isinstance(exc, tuple(classes))
+
+
+def dup_in(existing, ids):
+    """some non-null id of the sequence duplicates an earlier one or a member of the set `existing`"""
+    seen = set(existing)
+    for i in ids:
+        if i is None:
+            continue
+        if i in seen:
+            return True
+        seen.add(i)
+    return False
